@@ -17,6 +17,10 @@ H = 'C13_dataset.py'
 ROWALPHA_N = 6          # len(C13_dataset.ROWALPHA) = '1.-, TAB'
 ROW_FIRSTS = range(5)    # a row beginning with TAB (index 5) is outside the claim
 IGNS = ['#', '', '@', 'C']
+# Region B (short form a+b followed by further characters, e.g. '1+2+', silently read as 1E+2).  Basis: the docstring of
+# convert_fortran_number ("All other cases will ... signal that the number_string is not of the special form") and
+# docs/NONMEM.rst "Each item can only be numeric".  Set to False to move the region to `outside`.
+FINDING_B_ON = True
 
 
 def ign_name(c):
@@ -96,7 +100,9 @@ def build(thorough):
     imax = 5 if thorough else 4
     # regions of findings A and B (exactly the exclusions of `item`)
     obs.append(Ob(f'item_signed_dexp[len<={imax}]', H, 'item_signed_dexp', T, env=dict(ea, VH_ITEMMAX=imax)))
-    obs.append(Ob(f'item_shortform_junk[len<={imax}]', H, 'item_shortform_junk', T, env=dict(ea, VH_ITEMMAX=imax)))
+    if FINDING_B_ON:
+        obs.append(Ob(f'item_shortform_junk[len<={imax}]', H, 'item_shortform_junk', T,
+                      env=dict(ea, VH_ITEMMAX=imax)))
     obs.append(Ob('item_otherchar[len<=3]', H, 'item_otherchar', T))
     obs.append(Ob('item_null', H, 'item_null', T))
     obs.append(Ob('item_25', H, 'item_25', T))
@@ -207,7 +213,9 @@ def main():
                 'NULL rule for commas only; pandas strips them); an unterminated last line consisting of blanks; '
                 "lines starting with '@' and CR/FF/VT as white space under IGNORE=@ (docs and NM-TRAN differ); ignore "
                 'characters other than the four listed (and ^, backslash: finding E); longer rows/texts/items than the '
-                'bounds; float rounding of the converted value (the string handed to numpy is compared)')
+                'bounds; float rounding of the converted value (the string handed to numpy is compared)'
+                + ('' if FINDING_B_ON else '; items consisting of a short form a+b / a-b followed by further characters '
+                                           '(region B: pharmpy reads the prefix)'))
     run.assumptions = [
         'np.float64 in dataset.py is replaced by a recorder that accepts exactly Python float syntax '
         '[+-]?(d+.?d*|.d+)([eE][+-]?d+)? and returns the string; np.nan by a marker object',
